@@ -38,6 +38,11 @@ for d in sorted(glob.glob(f'/verif/seeded/{pat}/')):
     caught=[r['check'] for r in res if r['exit']==1]
     out[name]={'property':own,'caught_by':caught,'results':res}
     if not caught: missed.append(name)
+if pat!='*' and os.path.exists('/verif/seeded/MATRIX.json'):
+    # a partial run updates its entries and keeps the others
+    old=json.load(open('/verif/seeded/MATRIX.json'))
+    merged=old.get('changes',{}); merged.update(out); out=merged
+    missed=sorted(n for n,v in out.items() if not v.get('caught_by'))
 json.dump({'generated_by':'tools/seeded_matrix.sh','tier':'quick','changes':out,'missed':missed},open('/verif/seeded/MATRIX.json','w'),indent=1)
 print('missed:',missed)
 sys.exit(1 if missed else 0)
